@@ -31,6 +31,8 @@ EXPLANATION = (
     "field with which it is always stored together — no decision about a packet depends on what the previous packet left in "
     "the slot (the byte buffer itself excepted: see not decided)."
 )
+EXPLANATION_ADD = ' Additions: (EVICT-oldest) the slot reclaimed under pressure is selected by lowest stream_offset; (CEIL-frames) expected_frames is the ceiling of size / window.'
+EXPLANATION = EXPLANATION + EXPLANATION_ADD
 RESIDUAL = [
     "integrity, at-most-once and completeness of reassembly over frame histories (values): in particular the "
     "popcount completion test does not prove byte coverage — stale bytes of an earlier packet in a slot are a "
